@@ -437,6 +437,7 @@ impl JsObject {
         // NOTE(HalidOdat): For object's that are not callable we implement a special __call__ internal method
         //                  that throws on call.
 
+        let stack_len = context.vm.stack.len();
         context.vm.stack.push(this.clone()); // this
         context.vm.stack.push(self.clone()); // func
         let argument_count = args.len();
@@ -444,7 +445,15 @@ impl JsObject {
 
         // 3. Return ? F.[[Call]](V, argumentsList).
         let frame_index = context.vm.frames.len();
-        if self.__call__(argument_count).resolve(context)? {
+        let is_complete = self
+            .__call__(argument_count)
+            .resolve(context)
+            .inspect_err(|_| {
+                // `[[Call]]` failed before a frame was pushed (runtime limit, class constructor
+                // called without `new`, ...): pop `this`, the function and the arguments again.
+                context.vm.stack.truncate(stack_len);
+            })?;
+        if is_complete {
             return Ok(context.vm.stack.pop());
         }
 
@@ -486,6 +495,7 @@ impl JsObject {
         // 1. If newTarget is not present, set newTarget to F.
         let new_target = new_target.unwrap_or(self);
 
+        let stack_len = context.vm.stack.len();
         context.vm.stack.push(JsValue::undefined());
         context.vm.stack.push(self.clone()); // func
         let argument_count = args.len();
@@ -496,7 +506,14 @@ impl JsObject {
         // 3. Return ? F.[[Construct]](argumentsList, newTarget).
         let frame_index = context.vm.frames.len();
 
-        if self.__construct__(argument_count).resolve(context)? {
+        let is_complete = self
+            .__construct__(argument_count)
+            .resolve(context)
+            .inspect_err(|_| {
+                // `[[Construct]]` failed before a frame was pushed: pop the pushed values again.
+                context.vm.stack.truncate(stack_len);
+            })?;
+        if is_complete {
             let result = context.vm.stack.pop();
             return Ok(result
                 .as_object()
